@@ -183,7 +183,11 @@ def runner_rules(ctx, ta: TaskAnchors, rule: str, handler_rule: str | None = Non
     base_handlers = [h for h in hs if h.type is None or "BaseException" in handler_names(h.type)]
     for h in base_handlers:
         rep.violate(hr, R, h, "the runner catches BaseException: cancellation of the task is treated like a crash / swallowed")
-    if not exc_handlers:
+    all_hcalls = [c for c in walk_own(R.node) if isinstance(c, ast.Call) and isinstance(c.func, ast.Name) and c.func.id == handler_param] if handler_param else []
+    inner = [c for c in all_hcalls if not any(any(x is c for x in ast.walk(h)) for h in exc_handlers)]
+    for c in inner:
+        rep.violate(hr, R, c, "the exception handler is consulted by a `try` that does not cover the task's cancel scope and context block: an exception raised while the task's own context is torn down (a failing teardown callback of the task) bypasses the handler and always reaches the hosting task group")
+    if not exc_handlers and not all_hcalls:
         rep.hold(hr, R, R.node, "no handler around the task: every exception reaches the hosting task group")
     for h in exc_handlers:
         hn = [n for n in cfg.live_nodes() if n.kind == "handler" and n.ast is h]
@@ -339,6 +343,14 @@ def run(ctx) -> None:
             if not aws:
                 rep.violate("C08.R1", F, call_ast, "an awaitable returned by the teardown callable is never awaited")
             for aw in aws:
+                # ... only if it IS awaitable: `await None` after a plain synchronous callable
+                # raises TypeError inside the cancel-on-failure handler and cancels the task
+                if isinstance(aw.value, ast.Name):
+                    awn = fcfg.nodes_containing(aw)
+                    from .discharge import controlling_conditions as _cc
+
+                    guarded_aw = bool(awn) and any(truth and isinstance(e_, ast.Call) and call_name(e_) in ("isawaitable", "iscoroutine", "isfuture") and e_.args and isinstance(e_.args[0], ast.Name) and e_.args[0].id == aw.value.id for e_, truth, _t in _cc(fcfg, awn[0]))
+                    rep.check("C08.R1", guarded_aw, F, aw, "the callable's result is awaited only when it is awaitable", "the result of the teardown callable is awaited unconditionally: a synchronous callable (returning None) makes the await raise TypeError, which is taken for a failing callable and cancels the task")
                 hs2 = a.covering_handlers(F, aw)
                 good2 = [h for h in hs2 if h in good]
                 rep.check("C08.R1", bool(good2), F, aw, "awaiting the callable's result is covered by the same cancel-on-failure handler", "an exception raised while awaiting the teardown callable's result is not covered by the cancel-on-failure handler: it escapes the finalizer and the task is neither cancelled nor awaited")
@@ -368,7 +380,9 @@ def run(ctx) -> None:
     # the teardown stack itself is append-only / LIFO: shared obligation with C01
     from .common import include_rules
 
-    include_rules(ctx, "c01", "C08.R3", only=("C01.R1", "C01.R7", "C01.R3"))
+    include_rules(ctx, "c01", "C08.R3", only=("C01.R1", "C01.R2", "C01.R7", "C01.R3"))
+    # the ComponentContext wrapper hands every argument (teardown_action!) on unchanged
+    include_rules(ctx, "c02", "C08.R1", only=("C02.R4",))
 
     # ------------------------------------------------------------------ R4 runner brackets the task
     runner_rules(ctx, ta, "C08.R4")
